@@ -39,3 +39,13 @@ def errkeys(errors, **kw):
 
 def tname(exc):
     return type(exc).__name__
+
+
+def stack_depth(resolver):
+    """Depth of the resolver's scope stack (the state the properties name); -1 if the attribute is gone
+    after a refactoring -- the public resolution_scope is then the only observation."""
+    st = getattr(resolver, "_scopes_stack", None)
+    try:
+        return len(st)
+    except TypeError:
+        return -1
